@@ -13,7 +13,12 @@
  *     bytes 1..8  the file number, little endian (payload for foreign names)
  *     byte 9      spelling variant: two different names can parse to the same
  *                 (type, number) -- N.ldb / N.sst, LOG / LOG.old
- *     byte 10     0
+ *     byte 10     tag chosen by the harness (e.g. the directory slot): makes
+ *                 name buffers pairwise different by construction.  Not seen
+ *                 by ldb_parse_filename.  (Two entries that differ only in
+ *                 the tag cannot exist in a real directory; allowing them is
+ *                 an over-approximation.)
+ *     byte 11     0
  *
  * and kit/vp_names.c provides ldb_parse_filename() (filename.c) and
  * ldb_join() (util/strutil.c) over this encoding.  The REAL text
@@ -29,8 +34,9 @@
 #include <stdint.h>
 #include "filename.h"
 
-#define VP_NAME_LEN 11
+#define VP_NAME_LEN 12
 #define VP_NAME_JOINED 0x80
+#define VP_NAMES_MAX 8
 
 /* directory every joined name must have been joined with (the harness sets it) */
 extern const char *vp_names_dir;
@@ -40,14 +46,17 @@ extern int vp_names_parses;
 
 /* owned != 0: an owned name of the given type and number; owned == 0: a
    foreign name whose payload is `number' */
-void vp_name_make(char *buf, int owned, ldb_filetype_t type, uint64_t number, int variant);
+void vp_name_make(char *buf, int owned, ldb_filetype_t type, uint64_t number, int variant, int tag);
+
+/* optional: tell the model where name buffers live (cheaper ldb_join) */
+void vp_names_register(const char *name);
 
 int vp_name_owned(const char *name);
 int vp_name_joined(const char *name);
 ldb_filetype_t vp_name_type(const char *name);
 uint64_t vp_name_number(const char *name);
 
-/* same base name (marker, number, variant); the joined flag is ignored */
+/* same base name (marker, number, variant, tag); the joined flag is ignored */
 int vp_name_same(const char *a, const char *b);
 
 #endif
